@@ -25,12 +25,44 @@ from src.core.base import BaseLintContext, BaseLintRule
 from src.core.constants import Language
 from src.core.types import Violation
 
+from .config import LazyIgnoresConfig
 from .header_parser import SuppressionsParser
 from .matcher import IgnoreSuppressionMatcher
 from .python_analyzer import PythonIgnoreDetector
 from .skip_detector import TestSkipDetector
-from .types import IgnoreDirective
+from .types import IgnoreDirective, IgnoreType
 from .violation_builder import build_orphaned_violation, build_unjustified_violation
+
+
+# Which documented `check_*` switch governs which kind of suppression
+_TYPE_SWITCH: dict[IgnoreType, str] = {
+    IgnoreType.NOQA: "check_noqa",
+    IgnoreType.TYPE_IGNORE: "check_type_ignore",
+    IgnoreType.PYLINT_DISABLE: "check_pylint_disable",
+    IgnoreType.NOSEC: "check_nosec",
+    IgnoreType.PYRIGHT_IGNORE: "check_pyright_ignore",
+    IgnoreType.TS_IGNORE: "check_ts_ignore",
+    IgnoreType.TS_NOCHECK: "check_ts_ignore",
+    IgnoreType.TS_EXPECT_ERROR: "check_ts_ignore",
+    IgnoreType.ESLINT_DISABLE: "check_eslint_disable",
+    IgnoreType.THAILINT_IGNORE: "check_thailint_ignore",
+    IgnoreType.THAILINT_IGNORE_FILE: "check_thailint_ignore",
+    IgnoreType.THAILINT_IGNORE_NEXT: "check_thailint_ignore",
+    IgnoreType.THAILINT_IGNORE_BLOCK: "check_thailint_ignore",
+    IgnoreType.PYTEST_SKIP: "check_test_skips",
+    IgnoreType.PYTEST_SKIPIF: "check_test_skips",
+}
+
+
+def _config_section(context: BaseLintContext) -> dict | None:
+    """Get the lazy-ignores section of the loaded configuration, if any."""
+    metadata = getattr(context, "metadata", None)
+    if not isinstance(metadata, dict):
+        return None
+    for key in ("lazy_ignores", "lazy-ignores"):
+        if isinstance(metadata.get(key), dict):
+            return dict(metadata[key])
+    return None
 
 
 class LazyIgnoresRule(BaseLintRule):
@@ -82,10 +114,17 @@ class LazyIgnoresRule(BaseLintRule):
         if not context.file_content:
             return []
 
-        file_path = str(context.file_path) if context.file_path else "unknown"
-        return self.check_content(context.file_content, file_path)
+        section = _config_section(context)
+        if section is not None and not section.get("enabled", True):
+            return []
+        config = LazyIgnoresConfig.from_dict(section) if section is not None else None
 
-    def check_content(self, code: str, file_path: str) -> list[Violation]:
+        file_path = str(context.file_path) if context.file_path else "unknown"
+        return self.check_content(context.file_content, file_path, config)
+
+    def check_content(
+        self, code: str, file_path: str, config: LazyIgnoresConfig | None = None
+    ) -> list[Violation]:
         """Check code for unjustified ignores and orphaned suppressions.
 
         Args:
@@ -110,10 +149,16 @@ class LazyIgnoresRule(BaseLintRule):
         # Build set of normalized rule IDs used in code
         used_rule_ids = self._matcher.collect_used_rule_ids(ignores)
 
+        # Apply the documented check_* switches of the configuration section
+        checked = list(ignores)
+        if config is not None:
+            checked = [i for i in checked if getattr(config, _TYPE_SWITCH.get(i.ignore_type, ""), True)]
+
         # Find violations
         violations: list[Violation] = []
-        violations.extend(self._find_unjustified(ignores, suppressions, file_path))
-        violations.extend(self._find_orphaned(suppressions, used_rule_ids, file_path))
+        violations.extend(self._find_unjustified(checked, suppressions, file_path))
+        if config is None or config.check_orphaned:
+            violations.extend(self._find_orphaned(suppressions, used_rule_ids, file_path))
 
         return violations
 
